@@ -37,18 +37,18 @@ type Yielder interface {
 
 // SimReader is the io.Reader the system under test reads a slug from.
 type SimReader struct {
-	Data   []byte
-	Plan   ReaderPlan
-	Log    *Log
-	Y      Yielder
-	Name   string
-	off    int
-	calls  int
-	ci     int
-	Fired  map[string]int
-	dead   bool // sticky error state
-	zeros  int
-	Reads  int
+	Data         []byte
+	Plan         ReaderPlan
+	Log          *Log
+	Y            Yielder
+	Name         string
+	off          int
+	calls        int
+	ci           int
+	Fired        map[string]int
+	dead         bool // sticky error state
+	zeros        int
+	Reads        int
 	PostEOFReads int
 }
 
@@ -220,24 +220,24 @@ func (r *SimReader) Offset() int { return r.off }
 
 // WriterPlan describes a SimWriter's faults.
 type WriterPlan struct {
-	Faults    []Fault `json:"faults,omitempty"`
-	CallFault int     `json:"call_fault,omitempty"` // 1-based index of the Write call that fails (0 = none)
-	CallKind  string  `json:"call_kind,omitempty"`
-	CallSticky bool   `json:"call_sticky,omitempty"`
+	Faults     []Fault `json:"faults,omitempty"`
+	CallFault  int     `json:"call_fault,omitempty"` // 1-based index of the Write call that fails (0 = none)
+	CallKind   string  `json:"call_kind,omitempty"`
+	CallSticky bool    `json:"call_sticky,omitempty"`
 }
 
 // SimWriter is the io.Writer the system under test writes a slug to.
 type SimWriter struct {
-	Buf      []byte
-	Plan     WriterPlan
-	Log      *Log
-	Y        Yielder
-	Name     string
-	Calls    int
-	Fired    map[string]int
-	Errored  bool // the device returned an error at least once
-	dead     bool
-	fired    map[int]bool
+	Buf     []byte
+	Plan    WriterPlan
+	Log     *Log
+	Y       Yielder
+	Name    string
+	Calls   int
+	Fired   map[string]int
+	Errored bool // the device returned an error at least once
+	dead    bool
+	fired   map[int]bool
 }
 
 func NewSimWriter(name string, plan WriterPlan, log *Log, y Yielder) *SimWriter {
@@ -308,19 +308,19 @@ type PipeSched interface {
 // SimPipe is a bounded buffer joining a writer task and a reader task. A full
 // or empty pipe blocks the task in the simulator, never in the kernel.
 type SimPipe struct {
-	Cap      int
-	buf      []byte
-	wclosed  bool
-	rclosed  bool
-	broken   bool
-	BreakAt  int // total bytes after which the pipe breaks (<=0: never)
-	total    int
-	S        PipeSched
-	Log      *Log
-	Chunks   []int
-	ci       int
-	Fired    map[string]int
-	MaxFill  int
+	Cap     int
+	buf     []byte
+	wclosed bool
+	rclosed bool
+	broken  bool
+	BreakAt int // total bytes after which the pipe breaks (<=0: never)
+	total   int
+	S       PipeSched
+	Log     *Log
+	Chunks  []int
+	ci      int
+	Fired   map[string]int
+	MaxFill int
 }
 
 func NewSimPipe(capacity int, s PipeSched, log *Log) *SimPipe {
